@@ -2,6 +2,8 @@
    refines a FIFO queue of [process_block], every max_backlog >= 3, every hash table and block writer. *)
 From Coq Require Import List NArith ZArith Bool Lia Sorted.
 From SqfsV Require Import C02.GenBlk C02.BpModel C02.BpSpec C02.BpLemmas C02.BpQueue.
+(* not used here: required so that `make C02/BpProofs.vo` builds everything Properties_C02.v needs *)
+From SqfsV Require C02.BpConcrete C02.EnvModel.
 Import ListNotations.
 Local Open Scope N_scope.
 
@@ -279,6 +281,7 @@ Hypothesis Hmb : 3 <= mb.
 Variable Dall : list blk.
 Hypothesis Hfresh : frag_idx_fresh Dall.
 Hypothesis HDfl : Forall (fun d => fe_flags_ok (b_fl d)) Dall.
+Hypothesis Hlast : forall k, (cntL k Dall <= 1)%nat.
 
 Notation state := (st HT BW P).
 Notation spst := (sp HT).
@@ -325,7 +328,15 @@ Record ObsInv (s : state) (q : spst) : Prop := mkObs {
   O_pool : incl (filter notFB (Apool s)) Dall;
   O_outsrc : Forall (src_ok (ol_src (sp_log q))) (sp_out q);
   O_fbidx : Forall (fb_idx_ok (sp_nft q)) (sp_out q);
-  O_fragidx : forall fb, sp_frag q = Some fb -> b_idx fb < sp_nft q /\ bhas SPARSE fb = false
+  O_fragidx : forall fb, sp_frag q = Some fb -> b_idx fb < sp_nft q /\ bhas SPARSE fb = false;
+  (* type, sparse bytes and block start of every inode *)
+  O_J : forall k, Jino (s_ino s k);
+  O_sp : forall k, i_sparse (s_ino s k) = sparse_canon (ol_splog (sp_log q)) (map fst (s_writes s)) k;
+  O_st : forall k, i_start (s_ino s k) = start_canon (s_writes s) k;
+  (* the blocks consumed and waiting are a prefix of the D-stream; at most one LAST block per inode *)
+  O_lcnt : forall k, (cntL k (sp_out q) <= cntL k (ol_src (sp_log q)))%nat;
+  O_fraglast : forall fb, sp_frag q = Some fb -> bhas LAST fb = false;
+  O_pre : exists rest, ol_src (sp_log q) ++ filter notFB (Apool s) ++ rest = Dall
 }.
 
 (* [h] = blocks in the hands of the front end (blk_current, a sentinel being made) *)
@@ -342,7 +353,7 @@ Record Inv (h : N) (s : state) (q : spst) : Prop := mkInv {
 
 Ltac prj := cbn [s_pool s_ioq s_ioseq s_iodeq s_frag s_cur s_backlog s_ht s_ftbl s_ino s_bw s_writes
                  st_pool st_ioq st_ioseq st_iodeq st_frag st_cur st_backlog st_ht st_ftbl st_ino st_bw
-                 release enqueue sp_frag sp_ht sp_nft sp_out sp_log ol_src ol_glog ol_sflog log_g log_sf log_src] in *.
+                 release enqueue sp_frag sp_ht sp_nft sp_out sp_log ol_src ol_glog ol_sflog ol_splog log_g log_sf log_src] in *.
 
 (* lia after abstracting every list length (zify chokes on lengths of section-variable applications) *)
 Ltac nlia :=
@@ -355,11 +366,10 @@ Ltac nlia :=
 (* ---------------- the observation invariant: helpers ---------------- *)
 Lemma ObsInv_ext (s s' : state) q :
   s_ino s' = s_ino s -> s_writes s' = s_writes s -> s_ftbl s' = s_ftbl s ->
-  incl (filter notFB (Apool s')) (filter notFB (Apool s)) ->
+  filter notFB (Apool s') = filter notFB (Apool s) ->
   ObsInv s q -> ObsInv s' q.
 Proof.
-  intros E1 E2 E3 E4 []. constructor; rewrite ?E1, ?E2, ?E3; try assumption.
-  eapply incl_tran; eassumption.
+  intros E1 E2 E3 E4 []. constructor; rewrite ?E1, ?E2, ?E3, ?E4; assumption.
 Qed.
 
 Lemma Forall_firstn {A} (Q : A -> Prop) l : forall n, Forall Q l -> Forall Q (firstn n l).
@@ -418,8 +428,51 @@ Proof.
   apply Forall_map in H. exact H.
 Qed.
 
+(* a block of the output that is flagged sparse is not empty *)
+Lemma written_sparse (s : state) q e :
+  ObsInv s q -> In e (sp_out q) -> bhas SPARSE e = true -> 0 < len (b_data e).
+Proof.
+  intros [] He Hsp. rewrite Forall_forall in O_outsrc0, O_fbidx0.
+  assert (Hne : b_data e <> []).
+  { destruct (O_outsrc0 e He) as [HF|(d & Hd & Hdf & Heq)].
+    - destruct (O_fbidx0 e He HF) as (_ & H). congruence.
+    - assert (HdD : In d Dall) by (apply O_src0; exact Hd).
+      rewrite Forall_forall in HDfl. pose proof (HDfl d HdD) as Hfl. apply fe_flags_ok_elim in Hfl.
+      destruct Hfl as (_ & _ & Hsd & _).
+      rewrite Heq in Hsp |- *. unfold bhas in Hsp. cbn [b_fl b_data with_seq] in *.
+      apply pb_sparse_nonempty; assumption. }
+  destruct (b_data e); [congruence|]. rewrite len_cons. lia.
+Qed.
+
+Lemma cntL_pre (s : state) q k : ObsInv s q -> (cntL k (sp_out q) <= 1)%nat.
+Proof.
+  intros []. destruct O_pre0 as (rest & E). pose proof (Hlast k) as H. rewrite <- E, !cntL_app in H.
+  specialize (O_lcnt0 k). lia.
+Qed.
+
+(* the LAST block of an inode is the first LAST block of that inode to be written: blocks_start is still 0 *)
+Lemma written_last (s : state) q e n :
+  ObsInv s q -> map fst (s_writes s) ++ [e] = firstn n (sp_out q) -> bhas LAST e = true ->
+  i_start (s_ino s (b_ino e)) = 0.
+Proof.
+  intros Hobs Hw Hl. pose proof (cntL_pre s q (b_ino e) Hobs) as H1.
+  pose proof (cntL_firstn (b_ino e) n (sp_out q)) as H2. rewrite <- Hw, cntL_app in H2.
+  assert (H3 : cntL (b_ino e) [e] = 1%nat).
+  { unfold cntL, isL. cbn [filter]. rewrite N.eqb_refl, Hl. reflexivity. }
+  destruct Hobs. rewrite O_st0. unfold start_canon. apply st_fold_zero. lia.
+Qed.
+
+(* process_completed_block, inode by inode *)
+Lemma pcb_ino_eq (s : state) b bw' loc : bw_write (s_bw s) b = (bw', loc) ->
+  forall k, s_ino (pcb' s b) k = if k =? b_ino b then pcb_ino b loc (s_ino s k) else s_ino s k.
+Proof.
+  intros H k. unfold pcb, pcb_ino. rewrite H. destruct s as [xp xq xs xd xf xc xb xh xt xi xw xl]. prj.
+  destruct (bhas SPARSE b); [|destruct (negb (len (b_data b) =? 0)); [destruct (bhas FRAGBLK b)|]];
+    destruct (bhas LAST b); prj; unfold it_upd; destruct (k =? b_ino b); reflexivity.
+Qed.
+
 Ltac obs_same H :=
-  eapply ObsInv_ext; [| | | |exact H]; try reflexivity; unfold Apool; prj; try apply incl_refl.
+  eapply ObsInv_ext; [| | | |exact H]; try reflexivity.
 
 (* ---------------- process_completed_block / the flush loop ---------------- *)
 Lemma pcb_fields (s : state) b bw' loc : bw_write (s_bw s) b = (bw', loc) ->
@@ -529,7 +582,14 @@ Proof.
   - (* observations *)
     assert (G12 : s_ino s0 = s_ino s) by (destruct s; reflexivity).
     destruct (pcb_views s0 e bw' loc Hw) as (V1 & V2).
-    destruct I_obs0 as [Ofv Obv Oft Osrc Opool Oout Ofb Ofr].
+    assert (Hnth : nth_error (sp_out q) (N.to_nat (s_iodeq s)) = Some e).
+    { destruct I_q0 as [_ _ _ Hio _ _ _ _]. apply Forall_inv in Hio. destruct Hio as (A & _). rewrite <- He. exact A. }
+    assert (HLAST : bhas LAST e = true -> i_start (s_ino s (b_ino e)) = 0).
+    { apply (written_last s q e (S (N.to_nat (s_iodeq s))) I_obs0).
+      rewrite (firstn_succ_nth _ _ _ Hnth). f_equal. eapply Q_writes. exact I_q0. }
+    assert (HSP : bhas SPARSE e = true -> 0 < len (b_data e)).
+    { apply (written_sparse s q e I_obs0). eapply nth_error_In; exact Hnth. }
+    destruct I_obs0 as [Ofv Obv Oft Osrc Opool Oout Ofb Ofr OJ Osp Ost Olc Ofl Opre].
     constructor.
     + intro k. destruct (V2 k) as (A & B & _). rewrite A, B, G12. apply Ofv.
     + intro k. destruct (V2 k) as (_ & _ & C). rewrite C, F11, G11, G12, map_app. cbn [map fst].
@@ -540,6 +600,23 @@ Proof.
     + exact Oout.
     + exact Ofb.
     + exact Ofr.
+    + intro k. rewrite (pcb_ino_eq s0 e bw' loc Hw k), G12. destruct (k =? b_ino e) eqn:Ek; [|apply OJ].
+      apply N.eqb_eq in Ek. subst k. apply pcb_ino_J; [apply OJ|intro HL; rewrite (HLAST HL); unfold U32MAX; lia|exact HSP].
+    + intro k. rewrite (pcb_ino_eq s0 e bw' loc Hw k), G12, F11, G11, map_app. cbn [map fst].
+      rewrite sparse_canon_flush. unfold sp_blk. destruct (k =? b_ino e) eqn:Ek; cbn [andb]; [|apply Osp].
+      apply N.eqb_eq in Ek. subst k.
+      destruct (pcb_ino_J e loc (s_ino s (b_ino e)) (OJ _)) as (_ & A & _);
+        [intro HL; rewrite (HLAST HL); unfold U32MAX; lia|exact HSP|].
+      rewrite A, Osp. reflexivity.
+    + intro k. rewrite (pcb_ino_eq s0 e bw' loc Hw k), G12, F11, G11, start_canon_snoc. unfold st_blk. cbn [fst snd].
+      destruct (k =? b_ino e) eqn:Ek; cbn [andb]; [|apply Ost].
+      apply N.eqb_eq in Ek. subst k.
+      destruct (pcb_ino_J e loc (s_ino s (b_ino e)) (OJ _)) as (_ & _ & A);
+        [intro HL; rewrite (HLAST HL); unfold U32MAX; lia|exact HSP|].
+      rewrite A, Ost. reflexivity.
+    + exact Olc.
+    + exact Ofl.
+    + unfold Apool in *. rewrite F1, G1. exact Opre.
 Qed.
 
 Lemma flush_ok h q : forall l (s : state),
@@ -601,6 +678,23 @@ Lemma bv_g (t : itab) ino idx off k :
   i_blocks (it_upd t ino (fun i => i_set_frag i idx off) k) = i_blocks (t k).
 Proof. unfold it_upd. destruct (k =? ino); reflexivity. Qed.
 
+(* set_frag leaves type, sparse bytes and block start alone *)
+Lemma sc_g (t : itab) ino idx off k :
+  (Jino (t k) -> Jino (it_upd t ino (fun i => i_set_frag i idx off) k)) /\
+  i_sparse (it_upd t ino (fun i => i_set_frag i idx off) k) = i_sparse (t k) /\
+  i_start (it_upd t ino (fun i => i_set_frag i idx off) k) = i_start (t k).
+Proof. unfold it_upd. destruct (k =? ino); cbn; auto. Qed.
+
+Lemma isL_fb k fb n : bhas LAST fb = false -> isL k (pblock (with_seq fb n)) = false.
+Proof.
+  intro H. unfold isL. rewrite pb_flag by discriminate. unfold bhas in *. cbn [b_fl with_seq]. rewrite H.
+  apply andb_false_r.
+Qed.
+
+Lemma new_fb_last frag idx dc :
+  bhas LAST (with_fl (with_idx frag idx) (setf FRAGBLK true (setf DC dc no_flags))) = false.
+Proof. unfold bhas. cbn [b_fl with_fl]. rewrite !getf_setf_other, getf_no_flags by discriminate. reflexivity. Qed.
+
 (* the observation invariant across process_completed_fragment *)
 Lemma pcf_obs h (s0 : state) q x :
   Inv (h + 1) s0 q -> In x Dall -> bhas ISFRAG x = true ->
@@ -611,38 +705,61 @@ Proof.
   { eexists. eapply Q_writes. exact Hq. }
   pose proof (written_fresh s0 q x Hobs Hpre Hx Hfx) as WF.
   pose proof (written_ft_ok s0 q Hobs Hpre) as WT.
+  assert (Hxsp : bhas SPARSE x = false).
+  { rewrite Forall_forall in HDfl. pose proof (HDfl x Hx) as Hfl. apply fe_flags_ok_elim in Hfl. apply Hfl. }
+  pose proof (pb_sparse_nonempty hash compress x Hxsp) as HNE.
   set (b := pblock x) in *.
   assert (Eino : b_ino b = b_ino x) by apply pb_ino.
   assert (Eidx : b_idx b = b_idx x) by apply pb_idx.
   unfold pcf, spec_frag.
   destruct s0 as [xp xq xs xd xf xc xb xh xt xi xw xl]. destruct q as [qf qh qn qo ql].
   unfold Apool in *. prj. subst xf xh qn.
-  destruct Hobs as [Ofv Obv Oft Osrc Opool Oout Ofb Ofr]. unfold Apool in *. prj.
-  destruct (bhas SPARSE b).
+  destruct Hobs as [Ofv Obv Oft Osrc Opool Oout Ofb Ofr OJ Osp Ost Olc Ofl Opre]. unfold Apool in *. prj.
+  destruct (bhas SPARSE b) eqn:ESP.
   { (* sparse tail end *)
+    assert (Hlen : 0 < len (b_data b)).
+    { specialize (HNE eq_refl). destruct (b_data b); [congruence|]. rewrite len_cons. lia. }
+    assert (KJ : forall k, Jino (xi k) ->
+       Jino (i_add_sparse (i_set_block_size (i_make_extended (xi k)) (b_idx b) 0) (len (b_data b))) /\
+       i_sparse (i_add_sparse (i_set_block_size (i_make_extended (xi k)) (b_idx b) 0) (len (b_data b))) =
+         i_sparse (xi k) + len (b_data b) /\
+       i_start (i_add_sparse (i_set_block_size (i_make_extended (xi k)) (b_idx b) 0) (len (b_data b))) = i_start (xi k)).
+    { intros k HJ. destruct (J_sp_ext (xi k) (len (b_data b)) HJ Hlen) as (A & B & C & _).
+      split; [exact A|]. split; [exact B|exact C]. }
     prj. constructor; unfold Apool; prj; try assumption.
     - intro k. rewrite <- Ofv. unfold it_upd. destruct (k =? b_ino b); [|reflexivity].
       destruct (sf_op_views (xi k) (b_idx b) (len (b_data b))) as (A & B & _). rewrite A, B. reflexivity.
     - intro k. rewrite Eino, Eidx, blocks_canon_sf by exact WF. rewrite <- Obv.
       unfold it_upd, sf_blk. cbn [fst snd]. rewrite <- Eino, <- Eidx. destruct (k =? b_ino b); [|reflexivity].
-      destruct (sf_op_views (xi k) (b_idx b) (len (b_data b))) as (_ & _ & C). exact C. }
+      destruct (sf_op_views (xi k) (b_idx b) (len (b_data b))) as (_ & _ & C). exact C.
+    - intro k. unfold it_upd. destruct (k =? b_ino b); [|apply OJ]. apply KJ. apply OJ.
+    - intro k. rewrite sparse_canon_sp. unfold sp_add, it_upd. cbn [fst snd].
+      destruct (k =? b_ino b); [|apply Osp]. destruct (KJ k (OJ k)) as (_ & B & _). rewrite B, Osp. reflexivity.
+    - intro k. unfold it_upd. destruct (k =? b_ino b); [|apply Ost]. destruct (KJ k (OJ k)) as (_ & _ & C).
+      rewrite C. apply Ost. }
   destruct (if bhas DD b then None else ht_search qh b) as [[idx off]|].
   { (* duplicate of an earlier tail end *)
     prj. constructor; unfold Apool; prj; try assumption.
     - apply fv_g. exact Ofv.
-    - intro k. rewrite bv_g. apply Obv. }
+    - intro k. rewrite bv_g. apply Obv.
+    - intro k. apply sc_g. apply OJ.
+    - intro k. destruct (sc_g xi (b_ino b) idx off k) as (_ & A & _). rewrite A. apply Osp.
+    - intro k. destruct (sc_g xi (b_ino b) idx off k) as (_ & _ & A). rewrite A. apply Ost. }
   destruct qf as [fb|].
   - destruct (Ofr fb eq_refl) as (Kidx & Ksp).
     pose proof (Hfo fb eq_refl) as (K1 & K2 & K3).
+    pose proof (Ofl fb eq_refl) as KL.
     destruct (bs <? len (b_data fb) + len (b_data b)); prj.
     + (* overflow, then a new fragment block *)
+      assert (EP : filter notFB (alpha (p_submit xp (with_seq fb xs))) = filter notFB (alpha xp)).
+      { rewrite alpha_submit, filter_app. cbn [filter]. unfold notFB at 2. unfold bhas in *. cbn [b_fl with_seq].
+        rewrite K1. cbn [negb]. apply app_nil_r. }
       constructor; unfold Apool; prj.
       * apply fv_g. exact Ofv.
       * intro k. rewrite bv_g. apply Obv.
       * rewrite ftbl_canon_grow by exact WT. rewrite <- Oft. reflexivity.
       * exact Osrc.
-      * rewrite alpha_submit, filter_app. cbn [filter]. unfold notFB at 2. unfold bhas in *. cbn [b_fl with_seq].
-        rewrite K1. cbn [negb]. rewrite app_nil_r. exact Opool.
+      * rewrite EP. exact Opool.
       * apply Forall_app. split; [exact Oout|]. constructor; [|constructor]. left.
         rewrite pb_flag by discriminate. exact K1.
       * apply Forall_app. split.
@@ -651,12 +768,23 @@ Proof.
            split; [lia|]. rewrite pb_sparse_fb by exact K1. exact Ksp.
       * intros fb' E. inversion E; subst fb'. cbn [b_idx with_fl with_idx]. split; [lia|].
         unfold bhas. cbn [b_fl with_fl]. first [reflexivity|rewrite !getf_setf_other, getf_no_flags by discriminate; reflexivity].
+      * intro k. apply sc_g. apply OJ.
+      * intro k. destruct (sc_g xi (b_ino b) (len xt) 0 k) as (_ & A & _). rewrite A. apply Osp.
+      * intro k. destruct (sc_g xi (b_ino b) (len xt) 0 k) as (_ & _ & A). rewrite A. apply Ost.
+      * intro k. rewrite cntL_snoc_not by (apply isL_fb; exact KL). apply Olc.
+      * intros fb' E. inversion E; subst fb'. apply new_fb_last.
+      * rewrite EP. exact Opre.
     + (* merge *)
       constructor; unfold Apool; prj; try assumption.
       * apply fv_g. exact Ofv.
       * intro k. rewrite bv_g. apply Obv.
       * intros fb' E. inversion E; subst fb'. cbn [b_idx with_fl with_data]. split; [exact Kidx|].
         unfold bhas in *. cbn [b_fl with_fl]. rewrite getf_setf_other by discriminate. exact Ksp.
+      * intro k. apply sc_g. apply OJ.
+      * intro k. destruct (sc_g xi (b_ino b) (b_idx fb) (len (b_data fb)) k) as (_ & A & _). rewrite A. apply Osp.
+      * intro k. destruct (sc_g xi (b_ino b) (b_idx fb) (len (b_data fb)) k) as (_ & _ & A). rewrite A. apply Ost.
+      * intros fb' E. inversion E; subst fb'. unfold bhas in *. cbn [b_fl with_fl].
+        rewrite getf_setf_other by discriminate. exact KL.
   - (* a new fragment block *)
     prj. constructor; unfold Apool; prj; try assumption.
     + apply fv_g. exact Ofv.
@@ -665,6 +793,10 @@ Proof.
     + eapply Forall_impl; [|exact Ofb]. intros; apply fb_idx_ok_grow; assumption.
     + intros fb' E. inversion E; subst fb'. cbn [b_idx with_fl with_idx]. split; [lia|].
       unfold bhas. cbn [b_fl with_fl]. first [reflexivity|rewrite !getf_setf_other, getf_no_flags by discriminate; reflexivity].
+    + intro k. apply sc_g. apply OJ.
+    + intro k. destruct (sc_g xi (b_ino b) (len xt) 0 k) as (_ & A & _). rewrite A. apply Osp.
+    + intro k. destruct (sc_g xi (b_ino b) (len xt) 0 k) as (_ & _ & A). rewrite A. apply Ost.
+    + intros fb' E. inversion E; subst fb'. apply new_fb_last.
 Qed.
 
 (* x: a tail end taken out of the pool (still counted in the backlog: h + 1) *)
@@ -753,7 +885,7 @@ Proof.
   split; [|exact HxD].
   rewrite HA in Hq, Hbl.
   assert (Hq' := Q_drop_D hash compress BW bw_write bw0 _ _ _ _ _ _ _ Hq EFB).
-  destruct Hobs as [Ofv Obv Oft Osrc Opool Oout Ofb Ofr].
+  destruct Hobs as [Ofv Obv Oft Osrc Opool Oout Ofb Ofr OJ Osp Ost Olc Ofl Opre].
   destruct s as [xp xq xs xd xf xc xb xh xt xi xw xl]. destruct q as [qf qh qn qo ql]. unfold Apool in *. prj.
   constructor; unfold Apool; prj; rewrite ?Hp'; try assumption.
   - rewrite len_cons in Hbl. nlia.
@@ -761,6 +893,9 @@ Proof.
     + apply incl_app; [exact Osrc|]. intros y [<-|[]]. exact HxD.
     + rewrite HA in Opool. cbn [filter] in Opool. rewrite N1 in Opool. intros y Hy. apply Opool. right; exact Hy.
     + eapply Forall_impl; [|exact Oout]. intros; apply src_ok_grow; assumption.
+    + intro k. rewrite cntL_app. specialize (Olc k). lia.
+    + destruct Opre as (R & E). exists R. rewrite HA in E. cbn [filter] in E. rewrite N1 in E.
+      rewrite <- app_assoc. exact E.
 Qed.
 
 Lemma pull_ok h (s : state) q x rest p' :
@@ -791,7 +926,7 @@ Proof.
     { eapply ObsInv_ext; [| | | |exact Hobs]; try (destruct s; reflexivity).
       replace (Apool (st_ioq (st_pool s p') (store_io (s_ioq (st_pool s p')) (pblock x)))) with rest
         by (destruct s; symmetry; exact Hp').
-      rewrite HA. cbn [filter]. rewrite N1. apply incl_refl. }
+      rewrite HA. cbn [filter]. rewrite N1. reflexivity. }
     destruct s as [xp xq xs xd xf xc xb xh xt xi xw xl]. unfold Apool in *. prj.
     cbn [filter]. rewrite N1, N2, Hp'.
     split; [|split; [reflexivity|split; [reflexivity|split; [lia|cbn [length]; lia]]]].
@@ -820,7 +955,8 @@ Proof.
       destruct Hinv as [Hf Hh Hn Hfo Hq Hbl Hmb' Hobs]. rewrite HA in Hq, Hbl.
       assert (Hq' := Q_pull_D hash compress BW bw_write bw0 _ _ _ _ _ _ _ Hq EFB).
       assert (Hs : s_ioseq s = len (sp_out q)) by (destruct Hq; assumption).
-      destruct Pobs as [Ofv Obv Oft Osrc Opool Oout Ofb Ofr].
+      assert (Olc0 : forall k, (cntL k (sp_out q) <= cntL k (ol_src (sp_log q)))%nat) by (destruct Hobs; assumption).
+      destruct Pobs as [Ofv Obv Oft Osrc Opool Oout Ofb Ofr OJ Osp Ost Olc Ofl Opre].
       destruct s as [xp xq xs xd xf xc xb xh xt xi xw xl]. destruct q as [qf qh qn qo ql]. unfold Apool in *. prj. subst xs.
       cbn [filter]. rewrite N1, N2, Hp'. cbn [app].
       split; [|split; [reflexivity|split; [reflexivity|split; [lia|cbn [length]; lia]]]].
@@ -832,6 +968,13 @@ Proof.
            exists x. split; [apply in_or_app; right; left; reflexivity|]. split; [exact Hfx|reflexivity].
         -- apply Forall_app. split; [exact Ofb|]. constructor; [|constructor].
            intro HF. exfalso. unfold bhas in HF, EFB'. cbn [b_fl with_seq] in HF. congruence.
+        -- intro k. rewrite !cntL_app. specialize (Olc0 k).
+           assert (E : cntL k [with_seq (pblock x) (len qo)] = cntL k [x]).
+           { unfold cntL, isL. cbn [filter]. unfold bhas. cbn [b_ino b_fl with_seq].
+             fold (bhas LAST (pblock x)). fold (bhas LAST x). rewrite pb_ino, pb_flag by discriminate.
+             destruct ((k =? b_ino x) && bhas LAST x); reflexivity. }
+           rewrite E. lia.
+        -- rewrite Hp' in Opre. exact Opre.
 Qed.
 
 (* ---------------- dequeue_block ---------------- *)
@@ -1012,17 +1155,97 @@ Proof.
   split; [exact H1|]. split; [exact H2|]. rewrite H1, H2 in Hbl. change (len (@nil blk)) with 0 in Hbl. lia.
 Qed.
 
-(* ---------------- the front-end calls ---------------- *)
-Lemma Inv_st_ino h (s : state) q k f :
-  keeps_views f -> Inv h s q -> Inv h (st_ino s (it_upd (s_ino s) k f)) q.
+(* ---------------- the back end never touches a file size ---------------- *)
+Lemma pcb_size (s : state) b k : i_size (s_ino (pcb' s b) k) = i_size (s_ino s k).
 Proof.
-  intros Hkv [Hf Hh Hn Hfo Hq Hbl Hmb' Hobs].
+  destruct (bw_write (s_bw s) b) as [bw' loc] eqn:Hw. rewrite (pcb_ino_eq s b bw' loc Hw k).
+  destruct (k =? b_ino b); [apply pcb_ino_size|reflexivity].
+Qed.
+
+Lemma pcf_size (s : state) b k : i_size (s_ino (pcf' s b) k) = i_size (s_ino s k).
+Proof.
+  unfold pcf. destruct s as [xp xq xs xd xf xc xb xh xt xi xw xl]. prj.
+  destruct (bhas SPARSE b).
+  { prj. unfold it_upd. destruct (k =? b_ino b); [|reflexivity].
+    cbn [i_size i_add_sparse i_set_block_size]. apply sz_make_extended. }
+  destruct (if bhas DD b then None else ht_search xh b) as [[idx off]|].
+  { prj. unfold it_upd. destruct (k =? b_ino b); reflexivity. }
+  destruct xf as [fb|]; [destruct (bs <? len (b_data fb) + len (b_data b))|]; prj;
+    unfold it_upd; destruct (k =? b_ino b); reflexivity.
+Qed.
+
+Lemma flush_size k : forall l (s : state), i_size (s_ino (flush' l s) k) = i_size (s_ino s k).
+Proof.
+  induction l as [|e r IH]; intro s; cbn [flush_ioq]; [destruct s; reflexivity|].
+  destruct (b_seq e =? s_iodeq s); [|destruct s; reflexivity].
+  rewrite IH, pcb_size. destruct s; reflexivity.
+Qed.
+
+Lemma dq_loop_size k : forall fuel old (s s' : state),
+  dq_loop' fuel old s = Ok s' -> i_size (s_ino s' k) = i_size (s_ino s k).
+Proof.
+  induction fuel as [|n IH]; intros old s s' H; [discriminate H|]. cbn [dq_loop] in H.
+  pose proof (flush_size k (s_ioq s) s) as E1. set (s1 := flush' (s_ioq s) s) in *.
+  destruct (s_backlog s1 <? old); [inversion H; subst; exact E1|].
+  destruct (nothing_in_flight s1); [inversion H; subst; exact E1|].
+  destruct (p_dequeue (s_pool s1)) as [[b p']|]; [|discriminate H].
+  match type of H with context [if old <=? s_backlog ?t then _ else _] => set (s2 := t) in * end.
+  assert (E2 : i_size (s_ino s2 k) = i_size (s_ino s1 k)).
+  { unfold s2. destruct (bhas ISFRAG b); [rewrite pcf_size; destruct s1; reflexivity|].
+    destruct (negb (bhas FRAGBLK b) || bhas INTERNAL b); destruct s1; reflexivity. }
+  destruct (old <=? s_backlog s2).
+  - rewrite (IH _ _ _ H). congruence.
+  - inversion H; subst. congruence.
+Qed.
+
+Lemma gnb_loop_size k : forall fuel (s s' : state),
+  gnb_loop' fuel s = Ok s' -> i_size (s_ino s' k) = i_size (s_ino s k).
+Proof.
+  induction fuel as [|n IH]; intros s s' H; [discriminate H|]. cbn [gnb_loop] in H.
+  destruct (mb <=? s_backlog s).
+  - destruct (dequeue_block' s) as [s1| | |] eqn:E; cbn [bind] in H; try discriminate H.
+    rewrite (IH _ _ H). eapply dq_loop_size. exact E.
+  - inversion H; subst. destruct s; reflexivity.
+Qed.
+
+Lemma sync_loop_size k : forall fuel (s s' : state),
+  sync_loop' fuel s = Ok s' -> i_size (s_ino s' k) = i_size (s_ino s k).
+Proof.
+  induction fuel as [|n IH]; intros s s' H; [discriminate H|]. cbn [sync_loop] in H.
+  destruct (s_backlog s =? 0); [inversion H; subst; reflexivity|].
+  destruct (nothing_in_flight s); [inversion H; subst; reflexivity|].
+  destruct (dequeue_block' s) as [s1| | |] eqn:E; cbn [bind] in H; try discriminate H.
+  rewrite (IH _ _ H). eapply dq_loop_size. exact E.
+Qed.
+
+Lemma finish_size k (s s' : state) : finish' s = Ok s' -> i_size (s_ino s' k) = i_size (s_ino s k).
+Proof.
+  unfold finish, sync. intro H.
+  destruct (sync_loop' (N.to_nat (s_backlog s) + 2) s) as [s1| | |] eqn:E; cbn [bind] in H; try discriminate H.
+  pose proof (sync_loop_size k _ _ _ E) as E1.
+  destruct (s_frag s1) as [fb|]; [|inversion H; subst; exact E1].
+  rewrite (sync_loop_size k _ _ _ H). rewrite <- E1. destruct s1; reflexivity.
+Qed.
+
+(* ---------------- the front-end calls ---------------- *)
+(* append: file_size += n *)
+Lemma Inv_set_size h (s : state) q k n :
+  Inv h s q -> Inv h (st_ino s (it_upd (s_ino s) k (fun i => i_set_file_size i (i_size i + n)))) q.
+Proof.
+  intros [Hf Hh Hn Hfo Hq Hbl Hmb' Hobs].
+  pose proof (kv_set_file_size n) as Hkv.
+  set (f := fun i => i_set_file_size i (i_size i + n)) in *.
   destruct s as [xp xq xs xd xf xc xb xh xt xi xw xl]. unfold Apool in *. prj.
   constructor; unfold Apool; prj; try assumption.
-  destruct Hobs as [Ofv Obv Oft Osrc Opool Oout Ofb Ofr]. unfold Apool in *. prj.
+  destruct Hobs as [Ofv Obv Oft Osrc Opool Oout Ofb Ofr OJ Osp Ost Olc Ofl Opre]. unfold Apool in *. prj.
   constructor; unfold Apool; prj; try assumption.
   - intro k'. destruct (it_upd_kv xi k f k' Hkv) as (A & B & _). rewrite A, B. apply Ofv.
   - intro k'. destruct (it_upd_kv xi k f k' Hkv) as (_ & _ & C). rewrite C. apply Obv.
+  - intro k'. unfold it_upd. destruct (k' =? k); [|apply OJ]. apply J_set_file_size. apply OJ.
+  - intro k'. unfold it_upd. destruct (k' =? k); [|apply Osp].
+    destruct (J_set_file_size (xi k') n (OJ k')) as (_ & A & _). unfold f. rewrite A. apply Osp.
+  - intro k'. unfold it_upd. destruct (k' =? k); [|apply Ost].
+    destruct (J_set_file_size (xi k') n (OJ k')) as (_ & _ & A). unfold f. rewrite A. apply Ost.
 Qed.
 
 Lemma Inv_st_cur h (s : state) q v : Inv h s q -> Inv h (st_cur s v) q.
@@ -1034,17 +1257,22 @@ Proof.
 Qed.
 
 Lemma Inv_enqueue h (s : state) q b :
-  Inv (h + 1) s q -> bhas FRAGBLK b = false -> In b Dall -> Inv h (enqueue' s b) q.
+  Inv (h + 1) s q -> bhas FRAGBLK b = false ->
+  (exists rest, ol_src (sp_log q) ++ (filter notFB (Apool s) ++ [b]) ++ rest = Dall) -> Inv h (enqueue' s b) q.
 Proof.
-  intros [Hf Hh Hn Hfo Hq Hbl Hmb' Hobs] Hb HbD.
+  intros [Hf Hh Hn Hfo Hq Hbl Hmb' Hobs] Hb Hnext.
+  assert (HbD : In b Dall).
+  { destruct Hnext as (R & E). rewrite <- E. apply in_or_app. right. apply in_or_app. left.
+    apply in_or_app. right. left. reflexivity. }
   assert (Hq' := Q_submit_D hash compress BW bw_write bw0 _ _ _ _ _ _ b Hq Hb).
   destruct s as [xp xq xs xd xf xc xb xh xt xi xw xl]. unfold Apool in *. prj.
   constructor; unfold Apool; prj; rewrite ?alpha_submit; try assumption.
   - rewrite len_app, len_cons, len_nil. nlia.
-  - destruct Hobs as [Ofv Obv Oft Osrc Opool Oout Ofb Ofr]. unfold Apool in *. prj.
+  - destruct Hobs as [Ofv Obv Oft Osrc Opool Oout Ofb Ofr OJ Osp Ost Olc Ofl Opre]. unfold Apool in *. prj.
     constructor; unfold Apool; prj; rewrite ?alpha_submit; try assumption.
-    rewrite filter_app. cbn [filter]. unfold notFB at 2. rewrite Hb. cbn [negb].
-    apply incl_app; [exact Opool|]. intros y [<-|[]]. exact HbD.
+    + rewrite filter_app. cbn [filter]. unfold notFB at 2. rewrite Hb. cbn [negb].
+      apply incl_app; [exact Opool|]. intros y [<-|[]]. exact HbD.
+    + rewrite filter_app. cbn [filter]. unfold notFB at 2. rewrite Hb. cbn [negb]. exact Hnext.
 Qed.
 
 Lemma Apool_enqueue (s : state) b : Apool (enqueue' s b) = Apool s ++ [b].
@@ -1053,64 +1281,103 @@ Proof. destruct s as [xp xq xs xd xf xc xb xh xt xi xw xl]. unfold Apool. prj. a
 Lemma filter_notFB_snoc l b : bhas FRAGBLK b = false -> filter notFB (l ++ [b]) = filter notFB l ++ [b].
 Proof. intro H. rewrite filter_app. cbn [filter]. unfold notFB at 2. rewrite H. reflexivity. Qed.
 
+(* the specification logs every block it consumes *)
+Lemma spec_frag_src q b : ol_src (sp_log (spec_frag' q b)) = ol_src (sp_log q).
+Proof.
+  unfold spec_frag. destruct (bhas SPARSE b); [reflexivity|].
+  destruct (if bhas DD b then None else ht_search (sp_ht q) b) as [[? ?]|]; [reflexivity|].
+  destruct q as [qf qh qn qo ql]. prj.
+  destruct qf as [fb|]; [|reflexivity].
+  destruct (bs <? len (b_data fb) + len (b_data b)); reflexivity.
+Qed.
+
+Lemma spec_run_src : forall ds q, ol_src (sp_log (spec_run' q ds)) = ol_src (sp_log q) ++ ds.
+Proof.
+  induction ds as [|d ds IH]; intro q; cbn [spec_run fold_left]; [symmetry; apply app_nil_r|].
+  unfold spec_run in IH. rewrite IH. unfold spec_step.
+  destruct (bhas ISFRAG (pblock d)); [rewrite spec_frag_src|]; prj; rewrite <- app_assoc; reflexivity.
+Qed.
+
 Lemma be_events_ok : forall evs (s : state) q c',
   Inv (b2n (s_cur s)) s q -> evs_ok (s_cur s) evs c' ->
+  ol_src (sp_log q) ++ filter notFB (Apool s) ++ dblocks evs = Dall ->
   exists s' ds, be_events' s evs = Ok s' /\ Inv (b2n c') s' (spec_run' q ds) /\ s_cur s' = c' /\
-    filter notFB (Apool s) ++ dblocks evs = ds ++ filter notFB (Apool s').
+    filter notFB (Apool s) ++ dblocks evs = ds ++ filter notFB (Apool s') /\
+    forall k, i_size (s_ino s' k) = fold_left (sz_ev k) evs (i_size (s_ino s k)).
 Proof.
-  induction evs as [|e evs IH]; intros s q c' Hinv Hev.
+  induction evs as [|e evs IH]; intros s q c' Hinv Hev Hpre.
   - cbn in Hev. subst c'. exists s, []. split; [reflexivity|]. split; [exact Hinv|]. split; [reflexivity|].
-    cbn [dblocks app]. apply app_nil_r.
-  - cbn [be_events]. destruct e as [ino|ino n| |b|b]; cbn [evs_ok] in Hev; cbn [be_event bind dblocks].
+    split; [cbn [dblocks app]; apply app_nil_r|]. reflexivity.
+  - cbn [be_events]. destruct e as [ino|ino n| |b|b]; cbn [evs_ok] in Hev; cbn [be_event bind dblocks] in *.
     + (* EvBegin *)
-      destruct (IH s q c' Hinv Hev) as (s' & ds & D1 & D2 & D3 & D4).
+      destruct (IH s q c' Hinv Hev Hpre) as (s' & ds & D1 & D2 & D3 & D4 & D5).
       exists s', ds. auto.
     + (* EvSize *)
       set (s1 := st_ino s _).
       assert (G1 : s_cur s1 = s_cur s) by (destruct s; reflexivity).
       assert (G2 : Apool s1 = Apool s) by (destruct s; reflexivity).
-      destruct (IH s1 q c') as (s' & ds & D1 & D2 & D3 & D4).
-      { rewrite G1. apply Inv_st_ino; exact Hinv. }
+      assert (G3 : forall k, i_size (s_ino s1 k) = sz_ev k (i_size (s_ino s k)) (EvSize ino n)).
+      { intro k. unfold s1. destruct s as [xp xq xs xd xf xc xb xh xt xi xw xl]. prj. unfold it_upd, sz_ev.
+        destruct (k =? ino); [apply sz_set_file_size|reflexivity]. }
+      destruct (IH s1 q c') as (s' & ds & D1 & D2 & D3 & D4 & D5).
+      { rewrite G1. apply Inv_set_size; exact Hinv. }
       { rewrite G1; exact Hev. }
-      exists s', ds. rewrite <- G2. auto.
+      { rewrite G2; exact Hpre. }
+      exists s', ds. rewrite <- G2. split; [exact D1|]. split; [exact D2|]. split; [exact D3|]. split; [exact D4|].
+      intro k. cbn [fold_left]. rewrite <- G3. apply D5.
     + (* EvNew *)
       destruct Hev as (Hc & Hev).
       destruct (gnb_ok s q Hinv) as (s1 & ds1 & C1 & C2 & C3 & C4).
+      assert (C5 : forall k, i_size (s_ino s1 k) = i_size (s_ino s k)) by (intro k; eapply gnb_loop_size; exact C1).
       rewrite C1. cbn [bind].
       set (s2 := st_cur s1 true).
       assert (G1 : s_cur s2 = true) by (destruct s1; reflexivity).
       assert (G2 : Apool s2 = Apool s1) by (destruct s1; reflexivity).
-      destruct (IH s2 (spec_run' q ds1) c') as (s' & ds2 & D1 & D2 & D3 & D4).
+      assert (G3 : s_ino s2 = s_ino s1) by (destruct s1; reflexivity).
+      destruct (IH s2 (spec_run' q ds1) c') as (s' & ds2 & D1 & D2 & D3 & D4 & D5).
       { rewrite G1. rewrite C4, Hc in C2. apply Inv_st_cur. exact C2. }
       { rewrite G1; exact Hev. }
+      { rewrite spec_run_src, G2, <- app_assoc. rewrite C3, <- app_assoc in Hpre. exact Hpre. }
       exists s', (ds1 ++ ds2). split; [exact D1|]. unfold spec_run in *. rewrite fold_left_app.
-      split; [exact D2|]. split; [exact D3|].
-      rewrite C3, <- app_assoc, <- G2, D4, app_assoc. reflexivity.
+      split; [exact D2|]. split; [exact D3|]. split.
+      { rewrite C3, <- app_assoc, <- G2, D4, app_assoc. reflexivity. }
+      intro k. cbn [fold_left sz_ev]. rewrite D5, G3, C5. reflexivity.
     + (* EvSubmitCur *)
       destruct Hev as (Hc & Hfl & Hev). apply fe_flags_ok_elim in Hfl. destruct Hfl as (Hfb & _).
       set (s1 := st_cur (enqueue' s b) false).
       assert (G1 : s_cur s1 = false) by (destruct s; reflexivity).
       assert (G2 : Apool s1 = Apool s ++ [b]).
       { rewrite <- Apool_enqueue. destruct s; reflexivity. }
-      destruct (IH s1 q c') as (s' & ds & D1 & D2 & D3 & D4).
-      { rewrite G1. apply Inv_st_cur. apply Inv_enqueue; [|exact Hfb]. rewrite Hc in Hinv. exact Hinv. }
+      assert (G3 : s_ino s1 = s_ino s) by (destruct s; reflexivity).
+      assert (Hpre' : ol_src (sp_log q) ++ (filter notFB (Apool s) ++ [b]) ++ dblocks evs = Dall).
+      { rewrite <- app_assoc. exact Hpre. }
+      destruct (IH s1 q c') as (s' & ds & D1 & D2 & D3 & D4 & D5).
+      { rewrite G1. apply Inv_st_cur. apply Inv_enqueue; [|exact Hfb|eexists; exact Hpre']. rewrite Hc in Hinv. exact Hinv. }
       { rewrite G1; exact Hev. }
-      exists s', ds. split; [exact D1|]. split; [exact D2|]. split; [exact D3|].
-      rewrite G2, filter_notFB_snoc in D4 by exact Hfb. rewrite <- D4, <- app_assoc. reflexivity.
+      { rewrite G2, filter_notFB_snoc by exact Hfb. exact Hpre'. }
+      exists s', ds. split; [exact D1|]. split; [exact D2|]. split; [exact D3|]. split.
+      { rewrite G2, filter_notFB_snoc in D4 by exact Hfb. rewrite <- D4, <- app_assoc. reflexivity. }
+      intro k. cbn [fold_left sz_ev]. rewrite D5, G3. reflexivity.
     + (* EvSentinel *)
       destruct Hev as (Hfl & Hev). apply fe_flags_ok_elim in Hfl. destruct Hfl as (Hfb & _).
       destruct (gnb_ok s q Hinv) as (s1 & ds1 & C1 & C2 & C3 & C4).
+      assert (C5 : forall k, i_size (s_ino s1 k) = i_size (s_ino s k)) by (intro k; eapply gnb_loop_size; exact C1).
       rewrite C1. cbn [bind].
       set (s2 := enqueue' s1 b).
       assert (G1 : s_cur s2 = s_cur s1) by (destruct s1; reflexivity).
       assert (G2 : Apool s2 = Apool s1 ++ [b]) by apply Apool_enqueue.
-      destruct (IH s2 (spec_run' q ds1) c') as (s' & ds2 & D1 & D2 & D3 & D4).
-      { rewrite G1. apply Inv_enqueue; [exact C2|exact Hfb]. }
+      assert (G3 : s_ino s2 = s_ino s1) by (destruct s1; reflexivity).
+      assert (Hpre' : ol_src (sp_log (spec_run' q ds1)) ++ (filter notFB (Apool s1) ++ [b]) ++ dblocks evs = Dall).
+      { rewrite spec_run_src, <- !app_assoc. rewrite C3, <- app_assoc in Hpre. exact Hpre. }
+      destruct (IH s2 (spec_run' q ds1) c') as (s' & ds2 & D1 & D2 & D3 & D4 & D5).
+      { rewrite G1. apply Inv_enqueue; [exact C2|exact Hfb|eexists; exact Hpre']. }
       { rewrite G1, C4; exact Hev. }
+      { rewrite G2, filter_notFB_snoc by exact Hfb. exact Hpre'. }
       exists s', (ds1 ++ ds2). split; [exact D1|]. unfold spec_run in *. rewrite fold_left_app.
-      split; [exact D2|]. split; [exact D3|].
-      rewrite G2, filter_notFB_snoc in D4 by exact Hfb.
-      rewrite C3, <- !app_assoc. rewrite <- app_assoc in D4. cbn [app] in *. rewrite D4. reflexivity.
+      split; [exact D2|]. split; [exact D3|]. split.
+      { rewrite G2, filter_notFB_snoc in D4 by exact Hfb.
+        rewrite C3, <- !app_assoc. rewrite <- app_assoc in D4. cbn [app] in *. rewrite D4. reflexivity. }
+      intro k. cbn [fold_left sz_ev]. rewrite D5, G3, C5. reflexivity.
 Qed.
 
 (* ---------------- finish ---------------- *)
@@ -1120,7 +1387,7 @@ Lemma finish_ok (s : state) q :
     (s_bw s', s_writes s') =
       bw_run BW bw_write bw0 [] (sp_out (spec_fin' (spec_run' q (filter notFB (Apool s))))) /\
     s_backlog s' = 0 /\ s_cur s' = false /\
-    len (s_ftbl s') = sp_nft (spec_run' q (filter notFB (Apool s))).
+    ObsInv s' (spec_fin' (spec_run' q (filter notFB (Apool s)))).
 Proof.
   intros Hinv Hc. unfold finish.
   destruct (sync_ok s q) as (s1 & ds1 & C1 & C2 & C3 & C4 & C5).
@@ -1139,12 +1406,14 @@ Proof.
     assert (Hs : s_ioseq s1 = len (sp_out q1)) by (destruct Hq; assumption).
     set (s2 := enqueue' (st_ioseq (st_frag s1 None) (s_ioseq s1 + 1)) (with_seq fb (s_ioseq s1))).
     set (q2 := spec_fin' q1).
-    assert (Hq2 : q2 = mkSp None (sp_ht q1) (sp_nft q1) (sp_out q1 ++ [pblock (with_seq fb (len (sp_out q1)))])).
+    assert (Hq2 : q2 = mkSp None (sp_ht q1) (sp_nft q1) (sp_out q1 ++ [pblock (with_seq fb (len (sp_out q1)))]) (sp_log q1)).
     { unfold q2, spec_fin. rewrite Hf. reflexivity. }
     assert (G1 : Apool s2 = [with_seq fb (s_ioseq s1)]).
     { unfold s2. rewrite Apool_enqueue. replace (Apool (st_ioseq (st_frag s1 None) (s_ioseq s1 + 1))) with (Apool s1) by (destruct s1; reflexivity).
       rewrite E1. reflexivity. }
     assert (G2 : s_cur s2 = false) by (unfold s2; destruct s1; exact Hc1).
+    assert (GF : filter notFB (Apool s2) = []).
+    { rewrite G1. cbn [filter]. unfold notFB, bhas in *. cbn [b_fl with_seq]. rewrite K1. reflexivity. }
     assert (Hinv2 : Inv 0 s2 q2).
     { rewrite Hq2. rewrite <- Hs. clear Hq2 q2.
       constructor; rewrite ?G1.
@@ -1162,26 +1431,40 @@ Proof.
         replace (s_backlog s2) with (s_backlog s1) by (unfold s2; destruct s1; reflexivity).
         replace (s_frag s2) with (@None blk) by (unfold s2; destruct s1; reflexivity).
         rewrite E3. reflexivity.
-      - replace (s_backlog s2) with (s_backlog s1) by (unfold s2; destruct s1; reflexivity). exact Hmb'. }
+      - replace (s_backlog s2) with (s_backlog s1) by (unfold s2; destruct s1; reflexivity). exact Hmb'.
+      - (* observations *)
+        assert (I1 : s_ino s2 = s_ino s1) by (unfold s2; destruct s1; reflexivity).
+        assert (I2 : s_writes s2 = s_writes s1) by (unfold s2; destruct s1; reflexivity).
+        assert (I3 : s_ftbl s2 = s_ftbl s1) by (unfold s2; destruct s1; reflexivity).
+        destruct Hobs as [Ofv Obv Oft Osrc Opool Oout Ofb Ofr OJ Osp Ost Olc Ofl Opre].
+        destruct (Ofr fb Hf) as (Kidx & Ksp). pose proof (Ofl fb Hf) as KL.
+        constructor; prj; rewrite ?I1, ?I2, ?I3, ?GF; try assumption.
+        + intros y [].
+        + apply Forall_app. split; [exact Oout|]. constructor; [|constructor]. left.
+          rewrite pb_flag by discriminate. exact K1.
+        + apply Forall_app. split; [exact Ofb|]. constructor; [|constructor]. intros _.
+          rewrite pb_idx. cbn [b_idx with_seq]. split; [exact Kidx|]. rewrite pb_sparse_fb by exact K1. exact Ksp.
+        + intros ? E; discriminate E.
+        + intro k. rewrite cntL_snoc_not by (apply isL_fb; exact KL). apply Olc.
+        + intros ? E; discriminate E.
+        + rewrite E1 in Opre. exact Opre. }
     destruct (sync_ok s2 q2) as (s3 & ds3 & F1 & F2 & F3 & F4 & F5).
     { rewrite G2. exact Hinv2. }
     fold s2. rewrite F1.
     assert (Hds3 : ds3 = []).
-    { rewrite G1 in F3. cbn [filter] in F3. unfold notFB at 1 in F3. unfold bhas in F3, K1. cbn [b_fl with_seq] in F3.
-      rewrite K1 in F3. cbn [negb] in F3. destruct ds3; [reflexivity|discriminate F3]. }
+    { rewrite GF in F3. destruct ds3; [reflexivity|discriminate F3]. }
     subst ds3. cbn [spec_run fold_left] in F2.
     assert (Hc3 : s_cur s3 = false) by congruence. rewrite Hc3 in F2. cbn [b2n] in F2.
     destruct (drained s3 _ F2 Hc3 F5) as (H1 & H2 & H3).
     pose proof F2 as [Hf3 Hh3 Hn3 _ Hq3 _ _ Hobs3].
     rewrite H1, H2 in Hq3. apply Q_done in Hq3.
     exists s3. split; [reflexivity|]. split; [exact Hq3|].
-    split; [rewrite H3, Hf3, Hq2; reflexivity|]. split; [exact Hc3|].
-    rewrite Hn3, Hq2. reflexivity.
+    split; [rewrite H3, Hf3, Hq2; reflexivity|]. split; [exact Hc3|exact Hobs3].
   - (* nothing left *)
     exists s1. split; [reflexivity|].
     assert (Hfin : spec_fin' q1 = q1) by (unfold spec_fin; rewrite <- Hf; reflexivity).
     rewrite Hfin. rewrite E1, E2 in Hq. apply Q_done in Hq.
-    split; [exact Hq|]. split; [rewrite E3; reflexivity|]. split; [exact Hc1|exact Hn].
+    split; [exact Hq|]. split; [rewrite E3; reflexivity|]. split; [exact Hc1|exact Hobs].
 Qed.
 
 (* ---------------- the whole run ---------------- *)
@@ -1192,6 +1475,383 @@ Proof.
   - intros ? E; discriminate E.
   - apply InvQ_init.
   - cbn. lia.
+  - constructor; unfold Apool; prj; rewrite ?H; cbn [filter app]; try reflexivity.
+    + intros y [].
+    + intros y [].
+    + constructor.
+    + constructor.
+    + intros ? E; discriminate E.
+    + intros ? E; discriminate E.
+    + exists Dall. reflexivity.
+Qed.
+
+Lemma inode_eq i e z sp st fi fo bl :
+  i_ext i = e -> i_size i = z -> i_sparse i = sp -> i_start i = st -> i_fidx i = fi -> i_foff i = fo ->
+  i_blocks i = bl -> i = mkI e z sp st fi fo bl.
+Proof. destruct i; cbn; intros; subst; reflexivity. Qed.
+
+(* the calls of the front end, then finish: writes, inodes and fragment table are those of the specification *)
+Lemma run_events_ok p0 ht0 evs :
+  alpha p0 = [] -> evs_ok false evs false -> dblocks evs = Dall ->
+  let qf := spec_fin' (spec_run' (sp_init HT ht0) (dblocks evs)) in
+  exists s, bind (be_events' (init_st HT BW P p0 ht0 bw0) evs) finish' = Ok s /\
+    (s_bw s, s_writes s) = bw_run BW bw_write bw0 [] (sp_out qf) /\
+    s_backlog s = 0 /\
+    (forall k, s_ino s k = ino_canon (sp_log qf) (s_writes s) evs k) /\
+    s_ftbl s = ftbl_canon (sp_nft qf) (s_writes s).
+Proof.
+  intros Hp0 Hev HD. cbv zeta.
+  pose proof (Inv_init p0 ht0 Hp0) as Hinit.
+  set (s0 := init_st HT BW P p0 ht0 bw0) in *.
+  assert (HA0 : Apool s0 = []) by exact Hp0.
+  destruct (be_events_ok evs s0 (sp_init HT ht0) false) as (s1 & ds & C1 & C2 & C3 & C4 & C5).
+  { exact Hinit. }
+  { exact Hev. }
+  { rewrite HA0. exact HD. }
+  rewrite C1. cbn [bind].
+  rewrite HA0 in C4. cbn [filter app] in C4.
+  destruct (finish_ok s1 _ C2 C3) as (s2 & F1 & F2 & F3 & F4 & F5).
+  assert (EQ : spec_fin' (spec_run' (spec_run' (sp_init HT ht0) ds) (filter notFB (Apool s1))) =
+               spec_fin' (spec_run' (sp_init HT ht0) (dblocks evs))).
+  { unfold spec_run. rewrite <- fold_left_app, <- C4. reflexivity. }
+  rewrite EQ in *.
+  exists s2. split; [exact F1|]. split; [exact F2|]. split; [exact F3|].
+  destruct F5 as [Ofv Obv Oft Osrc Opool Oout Ofb Ofr OJ Osp Ost Olc Ofl Opre].
+  split; [|exact Oft].
+  intro k. unfold ino_canon.
+  assert (Esz : i_size (s_ino s2 k) = size_canon evs k).
+  { rewrite (finish_size k s1 s2 F1), C5. reflexivity. }
+  apply inode_eq.
+  - rewrite (OJ k), Esz, Osp, Ost. reflexivity.
+  - exact Esz.
+  - apply Osp.
+  - apply Ost.
+  - rewrite <- Ofv. reflexivity.
+  - rewrite <- Ofv. reflexivity.
+  - apply Obv.
+Qed.
+
+End Main.
+
+(* ------------------------------------------------------------------ *)
+(* the blocks the front end submits: one LAST block per file at most, a tail end never shares its
+   block index with a data block of the same file                                                  *)
+(* ------------------------------------------------------------------ *)
+Lemma dblocks_app a b : dblocks (a ++ b) = dblocks a ++ dblocks b.
+Proof.
+  induction a as [|e a IH]; [reflexivity|]. destruct e; cbn [app dblocks]; rewrite ?IH; reflexivity.
+Qed.
+
+Lemma evs_ok_flags : forall evs c c', evs_ok c evs c' -> Forall (fun d => fe_flags_ok (b_fl d)) (dblocks evs).
+Proof.
+  induction evs as [|e evs IH]; intros c c' H; [constructor|].
+  destruct e; cbn [evs_ok dblocks] in *.
+  - eapply IH; eassumption.
+  - eapply IH; eassumption.
+  - destruct H. eapply IH; eassumption.
+  - destruct H as (_ & Hf & H). constructor; [exact Hf|eapply IH; eassumption].
+  - destruct H as (Hf & H). constructor; [exact Hf|eapply IH; eassumption].
+Qed.
+
+(* where the front end stands inside a file: D = the blocks of this file submitted so far *)
+Definition fbound (f : fe) : N := match fe_cur f with Some cur => b_idx cur | None => fe_index f end.
+
+Definition blk_mid (ino n : N) (d : blk) : Prop :=
+  b_ino d = ino /\ bhas LAST d = false /\ bhas ISFRAG d = false /\ b_idx d < n.
+
+Record FI (ino : N) (f : fe) (D : list blk) : Prop := mkFI {
+  FI_ino : fe_ino f = ino;
+  FI_fl : getf LAST (fe_flags f) = false /\ getf ISFRAG (fe_flags f) = false;
+  FI_D : Forall (blk_mid ino (fbound f)) D;
+  FI_cur : forall cur, fe_cur f = Some cur -> blk_mid ino (fe_index f) cur
+}.
+
+Lemma blk_mid_mono ino n m d : n <= m -> blk_mid ino n d -> blk_mid ino m d.
+Proof. intros H (A & B & C & E). repeat split; try assumption. lia. Qed.
+
+Lemma fe_append_loop_FI bs ino : forall fuel f data f' evs D,
+  fe_append_loop fuel bs f data = Ok (f', evs) -> FI ino f D -> FI ino f' (D ++ dblocks evs).
+Proof.
+  induction fuel as [|n IH]; intros f data f' evs D H HFI; [discriminate H|].
+  cbn [fe_append_loop] in H. destruct data as [|d0 data'].
+  { inversion H; subst. cbn [dblocks]. rewrite app_nil_r. exact HFI. }
+  destruct HFI as [Hi Hfl HD Hcur].
+  destruct (fe_cur f) as [cur|] eqn:Ecur.
+  - pose proof (Hcur cur eq_refl) as Hc.
+    destruct (bs - len (b_data cur) =? 0).
+    + (* full: submitted *)
+      match type of H with context [fe_append_loop n bs ?g ?x] =>
+        destruct (fe_append_loop n bs g x) as [[f1 e1]| | |] eqn:E1; try discriminate H;
+        specialize (IH g x f1 e1 (D ++ [cur]) E1) end.
+      inversion H; subst. cbn [dblocks]. replace (D ++ cur :: dblocks e1) with ((D ++ [cur]) ++ dblocks e1)
+        by (rewrite <- app_assoc; reflexivity).
+      apply IH. constructor; unfold fbound, fe_with_cur; cbn [fe_ino fe_flags fe_cur fe_index].
+      * first [exact Hi|reflexivity].
+      * exact Hfl.
+      * apply Forall_app. split.
+        -- eapply Forall_impl; [|exact HD]. intros a Ha. unfold fbound in Ha. rewrite Ecur in Ha.
+           destruct Hc as (_ & _ & _ & Hc). eapply blk_mid_mono; [|exact Ha]. lia.
+        -- constructor; [exact Hc|constructor].
+      * intros ? E; discriminate E.
+    + (* room left *)
+      eapply IH; [exact H|]. constructor; unfold fbound, fe_with_cur; cbn [fe_ino fe_flags fe_cur fe_index].
+      * first [exact Hi|reflexivity].
+      * exact Hfl.
+      * unfold fbound in HD. rewrite Ecur in HD. exact HD.
+      * intros c E. inversion E; subst c. exact Hc.
+  - (* a new block *)
+    match type of H with context [fe_append_loop n bs ?g ?x] =>
+      destruct (fe_append_loop n bs g x) as [[f1 e1]| | |] eqn:E1; try discriminate H;
+      specialize (IH g x f1 e1 D E1) end.
+    inversion H; subst. cbn [dblocks]. apply IH.
+    destruct Hfl as (Hl & Hf).
+    constructor; unfold fbound; cbn [fe_ino fe_flags fe_cur fe_index b_idx].
+    * first [exact Hi|reflexivity].
+    * rewrite !getf_setf_other by discriminate. auto.
+    * unfold fbound in HD. rewrite Ecur in HD. exact HD.
+    * intros c E. inversion E; subst c. unfold blk_mid, bhas. cbn [b_ino b_fl b_idx].
+      repeat split; try assumption. lia.
+Qed.
+
+Lemma FI_submit_cur ino f cur D :
+  FI ino f D -> fe_cur f = Some cur -> FI ino (fe_with_cur f None) (D ++ [cur]).
+Proof.
+  intros [Hi Hfl HD Hcur] Ecur. pose proof (Hcur cur Ecur) as Hc.
+  constructor; unfold fbound, fe_with_cur; cbn [fe_ino fe_flags fe_cur fe_index].
+  - exact Hi.
+  - exact Hfl.
+  - apply Forall_app. split.
+    + eapply Forall_impl; [|exact HD]. intros a Ha. unfold fbound in Ha. rewrite Ecur in Ha.
+      destruct Hc as (_ & _ & _ & Hc). eapply blk_mid_mono; [|exact Ha]. lia.
+    + constructor; [exact Hc|constructor].
+  - intros ? E; discriminate E.
+Qed.
+
+Lemma fe_append_FI bs ino f data f' evs D :
+  fe_append bs f data = Ok (f', evs) -> FI ino f D -> FI ino f' (D ++ dblocks evs).
+Proof.
+  unfold fe_append. intros H HFI. destruct (negb (fe_begin f)); [discriminate H|].
+  destruct (fe_append_loop (3 * length data + 3) bs f data) as [[f1 e1]| | |] eqn:E1; try discriminate H.
+  pose proof (fe_append_loop_FI bs ino _ _ _ _ _ D E1 HFI) as H1.
+  destruct (fe_cur f1) as [cur|] eqn:Ecur; [|discriminate H].
+  destruct (len (b_data cur) =? bs); inversion H; subst; cbn [dblocks].
+  - rewrite dblocks_app. cbn [dblocks]. rewrite app_assoc. apply FI_submit_cur; assumption.
+  - exact H1.
+Qed.
+
+Lemma fe_appends_FI bs ino : forall chunks f f' evs D,
+  fe_appends bs f chunks = Ok (f', evs) -> FI ino f D -> FI ino f' (D ++ dblocks evs).
+Proof.
+  induction chunks as [|c r IH]; intros f f' evs D H HFI; cbn [fe_appends] in H.
+  - inversion H; subst. cbn [dblocks]. rewrite app_nil_r. exact HFI.
+  - destruct (fe_append bs f c) as [[f1 e1]| | |] eqn:E1; try discriminate H.
+    destruct (fe_appends bs f1 r) as [[f2 e2]| | |] eqn:E2; try discriminate H.
+    inversion H; subst. rewrite dblocks_app, app_assoc.
+    eapply IH; [exact E2|]. eapply fe_append_FI; eassumption.
+Qed.
+
+Lemma cntL_nolast k D : Forall (fun d => bhas LAST d = false) D -> cntL k D = O.
+Proof.
+  induction D as [|d D IH]; intro H; [reflexivity|]. inversion H; subst.
+  unfold cntL in *. cbn [filter]. unfold isL at 1. rewrite H2, andb_false_r. apply IH. assumption.
+Qed.
+
+Lemma cntL_single k x : (cntL k [x] <= 1)%nat.
+Proof. unfold cntL. cbn [filter]. destruct (isL k x); cbn [length]; lia. Qed.
+
+Lemma cntL_other k D : Forall (fun d => b_ino d <> k) D -> cntL k D = O.
+Proof.
+  induction D as [|d D IH]; intro H; [reflexivity|]. inversion H; subst.
+  unfold cntL in *. cbn [filter]. unfold isL at 1.
+  assert (E : (k =? b_ino d) = false) by (apply N.eqb_neq; congruence).
+  rewrite E. cbn [andb]. apply IH. assumption.
+Qed.
+
+Lemma fresh_nofrag D : Forall (fun d => bhas ISFRAG d = false) D -> frag_idx_fresh D.
+Proof.
+  intros H d f _ Hf HFf. rewrite Forall_forall in H. rewrite (H f Hf) in HFf. discriminate HFf.
+Qed.
+
+Lemma fresh_tail D t c :
+  Forall (fun d => bhas ISFRAG d = false /\ b_idx d < b_idx c) D ->
+  Forall (fun d => d = c \/ b_data d = []) t ->
+  (forall f, In f t -> bhas ISFRAG f = true -> f = c) ->
+  frag_idx_fresh (D ++ t).
+Proof.
+  intros HD Ht Hc d f Hd Hf HFf HFd _ Hdata. rewrite Forall_forall in HD, Ht.
+  apply in_app_or in Hf. destruct Hf as [Hf|Hf].
+  { destruct (HD f Hf) as (A & _). congruence. }
+  pose proof (Hc f Hf HFf) as ->.
+  apply in_app_or in Hd. destruct Hd as [Hd|Hd].
+  - destruct (HD d Hd) as (_ & A). lia.
+  - destruct (Ht d Hd) as [-> |A]; congruence.
+Qed.
+
+(* the blocks of one file *)
+Definition PF (ino : N) (D : list blk) : Prop :=
+  Forall (fun d => b_ino d = ino) D /\ (forall k, (cntL k D <= 1)%nat) /\ frag_idx_fresh D.
+
+Lemma fe_file_PF bs f ino fl f' evs :
+  fe_cur f = None -> file_ok fl -> fe_file bs f ino fl = Ok (f', evs) -> PF ino (dblocks evs).
+Proof.
+  intros Hc (Hfl & _) H. destruct fl as [uf chunks]. cbn [fst snd] in *.
+  unfold fe_file, fe_begin_file in H. cbn [fst snd] in H.
+  destruct (fe_begin f); [discriminate H|].
+  destruct (negb (N.ldiff uf c_SQFS_BLK_USER_SETTABLE_FLAGS =? 0)); [discriminate H|].
+  set (f1 := mkFe true ino (setf FIRST true (dec_flags uf)) 0 (fe_cur f)) in *.
+  destruct (fe_appends bs f1 chunks) as [[f2 e2]| | |] eqn:E2; try discriminate H.
+  destruct (fe_end_file f2) as [[f3 e3]| | |] eqn:E3; try discriminate H.
+  inversion H; subst. cbn [app dblocks]. rewrite dblocks_app.
+  assert (H1 : FI ino f1 []).
+  { constructor; unfold f1, fbound; cbn [fe_ino fe_flags fe_cur fe_index]; rewrite ?Hc.
+    - reflexivity.
+    - rewrite !getf_setf_other by discriminate.
+      pose proof user_mask_internal as M. cbn [forallb] in M.
+      repeat (apply andb_prop in M; destruct M as [?M M]).
+      repeat match goal with H : (_ =? _) = true |- _ => apply N.eqb_eq in H end.
+      unfold dec_flags; cbn [getf f_last f_isfrag]. split; apply user_flag_clear; assumption.
+    - constructor.
+    - intros ? E; discriminate E. }
+  pose proof (fe_appends_FI bs ino _ _ _ _ [] E2 H1) as [Hi (Hl & Hf) HD Hcur]. cbn [app] in HD.
+  set (D := dblocks e2) in *.
+  assert (DI : Forall (fun d => b_ino d = ino) D) by (eapply Forall_impl; [|exact HD]; intros a Ha; apply Ha).
+  assert (DL : Forall (fun d => bhas LAST d = false) D) by (eapply Forall_impl; [|exact HD]; intros a Ha; apply Ha).
+  assert (DNF : Forall (fun d => bhas ISFRAG d = false) D) by (eapply Forall_impl; [|exact HD]; intros a Ha; apply Ha).
+  unfold fe_end_file in E3. destruct (negb (fe_begin f2)); [discriminate E3|].
+  assert (Hsent : b_ino (sentinel f2) = ino /\ b_data (sentinel f2) = [] /\ bhas ISFRAG (sentinel f2) = false).
+  { unfold sentinel, bhas. cbn [b_ino b_data b_fl]. rewrite getf_setf_other by discriminate. auto. }
+  destruct Hsent as (S1 & S2 & S3).
+  destruct (fe_cur f2) as [cur|] eqn:Ecur.
+  - destruct (Hcur cur eq_refl) as (C1 & C2 & C3 & C4).
+    assert (DB : Forall (fun d => bhas ISFRAG d = false /\ b_idx d < b_idx cur) D).
+    { eapply Forall_impl; [|exact HD]. intros a Ha. unfold fbound in Ha. rewrite Ecur in Ha.
+      destruct Ha as (_ & _ & A & B). auto. }
+    destruct (getf DF (fe_flags f2)).
+    + (* the tail end stays a block of its own *)
+      inversion E3; subst. cbn [dblocks]. split; [|split].
+      * apply Forall_app. split; [exact DI|]. constructor; [exact C1|constructor].
+      * intro k. rewrite cntL_app, (cntL_nolast k D DL). apply cntL_single.
+      * apply fresh_nofrag. apply Forall_app. split; [exact DNF|]. constructor; [|constructor].
+        unfold bhas in *. cbn [b_fl with_fl]. rewrite getf_setf_other by discriminate. exact C3.
+    + set (cur' := with_fl cur (setf ISFRAG true (b_fl cur))) in *.
+      assert (K1 : b_ino cur' = ino) by exact C1.
+      assert (K2 : bhas LAST cur' = false).
+      { unfold cur', bhas in *. cbn [b_fl with_fl]. rewrite getf_setf_other by discriminate. exact C2. }
+      assert (DB' : Forall (fun d => bhas ISFRAG d = false /\ b_idx d < b_idx cur') D) by exact DB.
+      destruct (negb (getf FIRST (b_fl cur))); inversion E3; subst; cbn [dblocks].
+      * (* sentinel, then the tail end *)
+        split; [|split].
+        -- apply Forall_app. split; [exact DI|]. constructor; [exact S1|]. constructor; [exact K1|constructor].
+        -- intro k. rewrite cntL_app, (cntL_nolast k D DL).
+           change [sentinel f2; cur'] with ([sentinel f2] ++ [cur']). rewrite cntL_app.
+           pose proof (cntL_single k (sentinel f2)).
+           rewrite (cntL_nolast k [cur']) by (constructor; [exact K2|constructor]). lia.
+        -- apply (fresh_tail D _ cur' DB').
+           ++ constructor; [right; exact S2|]. constructor; [left; reflexivity|constructor].
+           ++ intros x [<-|[<-|[]]] Hx; [congruence|reflexivity].
+      * split; [|split].
+        -- apply Forall_app. split; [exact DI|]. constructor; [exact K1|constructor].
+        -- intro k. rewrite cntL_app, (cntL_nolast k D DL). apply cntL_single.
+        -- apply (fresh_tail D _ cur' DB').
+           ++ constructor; [left; reflexivity|constructor].
+           ++ intros x [<-|[]] Hx. reflexivity.
+  - destruct (negb (getf FIRST (fe_flags f2))); inversion E3; subst; cbn [dblocks].
+    + split; [|split].
+      * apply Forall_app. split; [exact DI|]. constructor; [exact S1|constructor].
+      * intro k. rewrite cntL_app, (cntL_nolast k D DL). apply cntL_single.
+      * apply fresh_nofrag. apply Forall_app. split; [exact DNF|]. constructor; [exact S3|constructor].
+    + rewrite app_nil_r. split; [exact DI|]. split.
+      * intro k. rewrite (cntL_nolast k D DL). lia.
+      * apply fresh_nofrag. exact DNF.
+Qed.
+
+(* the blocks of a list of files numbered ino, ino + 1, ... *)
+Definition PFs (ino : N) (D : list blk) : Prop :=
+  Forall (fun d => ino <= b_ino d) D /\ (forall k, (cntL k D <= 1)%nat) /\ frag_idx_fresh D.
+
+Lemma fe_files_PFs bs : 0 < bs -> forall fls f ino f' evs,
+  fe_begin f = false -> fe_cur f = None -> Forall file_ok fls ->
+  fe_files bs f ino fls = Ok (f', evs) -> PFs ino (dblocks evs).
+Proof.
+  intros Hbs. induction fls as [|fl fls IH]; intros f ino f' evs Hb Hc Hok H; cbn [fe_files] in H.
+  - inversion H; subst. split; [constructor|]. split; [intro; apply Nat.le_0_l|]. intros ? ? [].
+  - inversion Hok as [|? ? Hfl Hfls]; subst.
+    destruct (fe_file_ok bs Hbs f ino fl Hb Hc Hfl) as (f1 & e1 & E1 & _ & E3 & E4).
+    rewrite E1 in H.
+    destruct (fe_files bs f1 (ino + 1) fls) as [[f2 e2]| | |] eqn:E2; try discriminate H.
+    inversion H; subst. rewrite dblocks_app.
+    destruct (fe_file_PF bs f ino fl f1 e1 Hc Hfl E1) as (A1 & A2 & A3).
+    destruct (IH f1 (ino + 1) f' e2 E3 E4 Hfls E2) as (B1 & B2 & B3).
+    rewrite Forall_forall in A1, B1.
+    split; [|split].
+    + apply Forall_app. split; apply Forall_forall; intros d Hd; [rewrite (A1 d Hd); lia|specialize (B1 d Hd); lia].
+    + intro k. rewrite cntL_app. destruct (N.eq_dec k ino) as [->|Hne].
+      * rewrite (cntL_other ino (dblocks e2)); [specialize (A2 ino); lia|].
+        apply Forall_forall. intros d Hd. specialize (B1 d Hd). lia.
+      * rewrite (cntL_other k (dblocks e1)); [apply B2|].
+        apply Forall_forall. intros d Hd. rewrite (A1 d Hd). congruence.
+    + intros d x Hd Hx HFx HFd Hino Hdata.
+      apply in_app_or in Hd. apply in_app_or in Hx.
+      destruct Hd as [Hd|Hd], Hx as [Hx|Hx].
+      * apply (A3 d x); assumption.
+      * exfalso. pose proof (A1 d Hd). specialize (B1 x Hx). lia.
+      * exfalso. pose proof (A1 x Hx). specialize (B1 d Hd). lia.
+      * apply (B3 d x); assumption.
+Qed.
+
+(* ------------------------------------------------------------------ *)
+(* the whole run                                                       *)
+(* ------------------------------------------------------------------ *)
+Section Run.
+Variable hash : list N -> N.
+Variable compress : list N -> option (list N).
+Variable HT : Type.
+Variable ht_search : HT -> blk -> option (N * N).
+Variable ht_insert : HT -> blk -> N * N -> HT.
+Variable BW : Type.
+Variable bw_write : BW -> blk -> BW * N.
+Variable P : Type.
+Variable p_submit : P -> blk -> P.
+Variable p_dequeue : P -> option (blk * P).
+Variable bs mb : N.
+Variable bw0 : BW.
+Variable alpha : P -> list blk.
+Hypothesis alpha_submit : forall p b, alpha (p_submit p b) = alpha p ++ [b].
+Hypothesis alpha_deq_cons : forall p b r, alpha p = b :: r ->
+  exists p', p_dequeue p = Some (process_block hash compress b, p') /\ alpha p' = r.
+Hypothesis Hmb : 3 <= mb.
+
+Notation run' := (run HT ht_search ht_insert BW bw_write P p_submit p_dequeue bs mb).
+
+(* writes, inodes, fragment table: all three are the functions of the file list defined in BpSpec.v *)
+Theorem run_refines_spec_full p0 ht0 files :
+  alpha p0 = [] -> 0 < bs -> Forall file_ok files ->
+  exists s,
+    run' p0 ht0 bw0 files = Ok s /\
+    (s_bw s, s_writes s) = bw_run BW bw_write bw0 [] (spec_blocks hash compress HT ht_search ht_insert bs ht0 files) /\
+    s_backlog s = 0 /\
+    (forall k, s_ino s k = spec_inodes hash compress HT ht_search ht_insert BW bw_write bs ht0 bw0 files k) /\
+    s_ftbl s = spec_ftbl hash compress HT ht_search ht_insert BW bw_write bs ht0 bw0 files.
+Proof.
+  intros Hp0 Hbs Hfiles. unfold run, spec_blocks, spec_inodes, spec_ftbl, spec_final.
+  destruct (fe_files_ok bs Hbs files fe_init 0 eq_refl eq_refl Hfiles) as (f' & evs & E1 & E2).
+  destruct (fe_files_PFs bs Hbs files fe_init 0 f' evs eq_refl eq_refl Hfiles E1) as (_ & PL & PFr).
+  rewrite E1.
+  destruct (run_events_ok hash compress HT ht_search ht_insert BW bw_write P p_submit p_dequeue bs mb bw0
+              alpha alpha_submit alpha_deq_cons Hmb (dblocks evs) PFr (evs_ok_flags _ _ _ E2) PL
+              p0 ht0 evs Hp0 E2 eq_refl) as (s & R1 & R2 & R3 & R4 & R5).
+  cbv zeta in *. exists s. split; [exact R1|]. split; [exact R2|]. split; [exact R3|].
+  assert (EW : s_writes s = snd (bw_run BW bw_write bw0 []
+             (sp_out (spec_fin hash compress HT (spec_run hash compress HT ht_search ht_insert bs (sp_init HT ht0) (dblocks evs)))))).
+  { rewrite <- R2. reflexivity. }
+  rewrite <- EW. split; [exact R4|exact R5].
+Qed.
+
+(* the inode type the specification computes is the smallest that holds the three scalar fields *)
+Lemma spec_inodes_type ht0 files k :
+  Jino (spec_inodes hash compress HT ht_search ht_insert BW bw_write bs ht0 bw0 files k).
+Proof.
+  unfold spec_inodes. destruct (fe_files bs fe_init 0 files) as [[f evs]| | |]; reflexivity.
 Qed.
 
 Theorem run_refines_spec p0 ht0 files :
@@ -1201,23 +1861,10 @@ Theorem run_refines_spec p0 ht0 files :
     (s_bw s, s_writes s) = bw_run BW bw_write bw0 [] (spec_blocks hash compress HT ht_search ht_insert bs ht0 files) /\
     s_backlog s = 0.
 Proof.
-  intros Hp0 Hbs Hfiles. unfold run, spec_blocks.
-  destruct (fe_files_ok bs Hbs files fe_init 0 eq_refl eq_refl Hfiles) as (f' & evs & E1 & E2).
-  rewrite E1.
-  pose proof (Inv_init p0 ht0 Hp0) as Hinit.
-  set (s0 := init_st HT BW P p0 ht0 bw0) in *.
-  destruct (be_events_ok evs s0 (sp_init HT ht0) false) as (s1 & ds & C1 & C2 & C3 & C4).
-  { exact Hinit. }
-  { exact E2. }
-  rewrite C1. cbn [bind].
-  assert (HA0 : Apool s0 = []) by exact Hp0.
-  rewrite HA0 in C4. cbn [filter app] in C4.
-  destruct (finish_ok s1 _ C2 C3) as (s2 & F1 & F2 & F3 & F4 & F5).
-  exists s2. split; [exact F1|]. split; [|exact F3].
-  rewrite F2. unfold spec_run. rewrite <- fold_left_app, <- C4. reflexivity.
+  intros H1 H2 H3. destruct (run_refines_spec_full p0 ht0 files H1 H2 H3) as (s & A & B & C & _).
+  exists s. auto.
 Qed.
-
-End Main.
+End Run.
 
 (* ------------------------------------------------------------------ *)
 (* corollaries                                                         *)
@@ -1303,9 +1950,13 @@ Proof.
   - inversion Hds as [|? ? Hd Hds']; subst. cbn [spec_run fold_left filter].
     unfold spec_step at 2 4. rewrite (pb_flag hash compress ISFRAG) by discriminate.
     destruct (bhas ISFRAG d) eqn:E; cbn [negb].
-    + destruct (spec_frag_order q (pblock d) Hq) as (A1 & A2).
+    + set (q0 := mkSp (sp_frag q) (sp_ht q) (sp_nft q) (sp_out q) (log_src (sp_log q) d)).
+      assert (Hq0 : frag_inv q0) by exact Hq.
+      destruct (spec_frag_order q0 (pblock d) Hq0) as (A1 & A2).
       destruct (IH _ A1 Hds') as (B1 & B2). split; [exact B1|]. unfold spec_run in *. rewrite B2, A2. reflexivity.
-    + set (q1 := mkSp (sp_frag q) (sp_ht q) (sp_nft q) (sp_out q ++ [with_seq (pblock d) (len (sp_out q))])).
+    + cbn [sp_frag sp_ht sp_nft sp_out sp_log].
+      set (q1 := mkSp (sp_frag q) (sp_ht q) (sp_nft q) (sp_out q ++ [with_seq (pblock d) (len (sp_out q))])
+                      (log_src (sp_log q) d)).
       assert (A1 : frag_inv q1) by exact Hq.
       destruct (IH _ A1 Hds') as (B1 & B2). split; [exact B1|]. unfold spec_run in *. rewrite B2.
       unfold data_out, q1. cbn [sp_out]. rewrite filter_app, map_app. cbn [filter].
@@ -1338,7 +1989,7 @@ Theorem spec_blocks_data_order ht0 files f evs :
   map unseq (filter notFB (spec_blocks hash compress HT ht_search ht_insert bs ht0 files)) =
   map (fun d => unseq (pblock d)) (filter (fun d => negb (bhas ISFRAG d)) (dblocks evs)).
 Proof.
-  intros Hbs Hfiles E. unfold spec_blocks. rewrite E.
+  intros Hbs Hfiles E. unfold spec_blocks, spec_final. rewrite E.
   destruct (fe_files_ok bs Hbs files fe_init 0 eq_refl eq_refl Hfiles) as (f' & evs' & E1 & E2).
   rewrite E in E1. inversion E1; subst f' evs'.
   assert (H0 : frag_inv (sp_init HT ht0)) by (intros ? X; discriminate X).
